@@ -12,6 +12,15 @@ Section Generator.
   Notation replications := (replications S D Rq draw).
   Notation simphenotype_run := (simphenotype_run S D Rq reseed draw).
 
+  (* stages are threaded: the second stage starts in the state the first one left *)
+  Lemma run_bind_l {A B} (p : prog D Rq A) (f : A -> prog D Rq B) : forall s,
+    run (bindP D Rq p f) s = let '(a, s') := run p s in run (f a) s'.
+  Proof.
+    induction p as [a|q k IH]; intros s; cbn [C10_Model.bindP C10_Model.run].
+    - reflexivity.
+    - destruct (draw q s) as [d s']. apply IH.
+  Qed.
+
   Lemma start_state_seeded k g : start_state false (Some k) g = reseed k.
   Proof. reflexivity. Qed.
 
@@ -21,6 +30,15 @@ Section Generator.
   Lemma seeded_history_independent_l {I O} (P : I -> prog D Rq O) k g g' i :
     simgenotype_run false P (Some k) g i = simgenotype_run false P (Some k) g' i.
   Proof. unfold C10_Model.simgenotype_run. rewrite !start_state_seeded. reflexivity. Qed.
+
+  (* the whole command: breakpoints (simulate_gt), their sub-sample (write_breakpoints) and
+     the genotypes (output_vcf) are a function of seed and inputs although only the first
+     stage seeds the generator *)
+  Lemma pipeline_history_independent_l {I A B C} (sim : I -> prog D Rq A)
+        (wbp : A -> prog D Rq B) (vcf : B -> prog D Rq C) k g g' i :
+    simgenotype_run false (fun i => bindP D Rq (sim i) (fun a => bindP D Rq (wbp a) vcf)) (Some k) g i
+    = simgenotype_run false (fun i => bindP D Rq (sim i) (fun a => bindP D Rq (wbp a) vcf)) (Some k) g' i.
+  Proof. apply seeded_history_independent_l. Qed.
 
   Lemma seeded_is_function_of_seed_l {I O} (P : I -> prog D Rq O) k g i :
     simgenotype_run false P (Some k) g i = run (P i) (reseed k).
